@@ -97,10 +97,40 @@ Proof.
   split; [now apply sequence_safe | now apply sequence_balanced].
 Qed.
 
+(* every access of every session happens under the lock, also in sequences *)
+Lemma session_access : forall k o, feasible k o = true ->
+  locked_access false (session_events New k o) = true.
+Proof. intros k o H. destruct k, o; try discriminate H; vm_compute; reflexivity. Qed.
+
+Lemma locked_access_app : forall a b h h', mrun h a = MOk h' ->
+  locked_access h (a ++ b) = locked_access h a && locked_access h' b.
+Proof.
+  induction a as [|e a IH]; intros b h h' H; cbn in *.
+  - now injection H as ->.
+  - destruct e; cbn in H.
+    + destruct h; [discriminate|]. now apply IH.
+    + destruct h; [|discriminate]. now apply IH.
+    + rewrite (IH b h h' H). now rewrite andb_assoc.
+    + rewrite (IH b h h' H). now rewrite andb_assoc.
+    + now apply IH.
+    + now apply IH.
+Qed.
+
+Lemma sequence_access : forall ss, all_feasible ss = true ->
+  locked_access false (sessions_events New ss) = true.
+Proof.
+  induction ss as [|[k o] ss IH]; intro H; [reflexivity|].
+  cbn in H. apply andb_prop in H. destruct H as [Hf Hr].
+  unfold sessions_events. cbn [flat_map fst snd].
+  rewrite (locked_access_app _ _ false false (session_safe k o Hf)), (session_access k o Hf).
+  now apply IH.
+Qed.
+
 Lemma sequence_ok_model : forall ss, all_feasible ss = true ->
   sequence_ok (sessions_events New ss) = true.
 Proof.
-  intros ss H. unfold sequence_ok. rewrite (sequence_safe ss H), (sequence_balanced ss H), Nat.eqb_refl.
+  intros ss H. unfold sequence_ok.
+  rewrite (sequence_safe ss H), (sequence_balanced ss H), Nat.eqb_refl, (sequence_access ss H).
   reflexivity.
 Qed.
 
